@@ -86,6 +86,7 @@ def r1_generation(ctx):
         table = {
                  "mahf::problems::VectorProblem::dimension": dim, "mahf::problems::TravellingSalespersonProblem::distance": dist,
                  "rand::distributions::weighted_index::WeightedIndex::new": wnew, "rand::distributions::distribution::Distribution::sample": sample,
+                 "rand::rng::Rng::sample": sample,      # `rng.sample(&dist)` is `dist.sample(rng)`
                  "mahf::state::common::Populations::current_mut": Ref(home, [], frame="root")}
         table.update(matrix_oracles(dim))
         it = install(Interp(fn.body, chain(mk_oracle(table), store1, coll_oracle, std_oracle), [me, Sym("problem"), Sym("state")], facts=F,
